@@ -84,9 +84,18 @@ def h_reloc(params, vals, ctx):
         require(-65536 < vals["X"] < 65536)
     v1 = {"B": b1, **({"X": vals["X"]} if "X" in vals else {})}
     v2 = {"B": b2, **({"X": vals["X"]} if "X" in vals else {})}
-    text = (".link {B}\n" + prog) if params.get("link_pos", "start") == "start" else (prog + ".link {B}\n")
-    o1 = assemble([("a.mac", text)], v1, route=ctx.route)
-    o2 = assemble([("a.mac", text)], v2, route=ctx.route)
+    if params.get("split"):
+        # the same program as two linked source files with exported labels; '.link' sits in one of them
+        lines = prog.replace(":", "::").split("\n")[:-1]
+        parts = [lines[:params["split"]], lines[params["split"]:]]
+        where = params.get("link_file", 1)
+        parts[where] = ([".link {B}"] + parts[where]) if params.get("link_pos", "start") == "start" else (parts[where] + [".link {B}"])
+        files = [("a.mac", "\n".join(parts[0]) + "\n"), ("b.mac", "\n".join(parts[1]) + "\n")]
+    else:
+        text = (".link {B}\n" + prog) if params.get("link_pos", "start") == "start" else (prog + ".link {B}\n")
+        files = [("a.mac", params.get("head", "") + text)]
+    o1 = assemble(files, v1, route=ctx.route)
+    o2 = assemble(files, v2, route=ctx.route)
     ctx.observe_outcome(o1)
     ctx.observe_outcome(o2)
     ctx.reach(o1.status == "ok" and o2.status == "ok")
@@ -123,6 +132,16 @@ def obligations(tier, seed):
     for i, (prog, kinds) in enumerate(FIXED):
         add(f"fixed/{i}", prog, kinds)
         add(f"fixed-link-at-end/{i}", prog, kinds, link_pos="end")
+    # the source is assembled twice in one process under one file name: '.once' guards includes, not assemblies
+    add("once/0", FIXED[0][0], FIXED[0][1], head=".once\n")
+    add("once/3", FIXED[3][0], FIXED[3][1], head=".once\n", link_pos="end")
+    # one program as two linked files, '.link' in either
+    for i, k in ((0, 1), (1, 2), (2, 2), (3, 1), (4, 2), (6, 1)):
+        for lf in (0, 1):
+            for lp in ("start", "end"):
+                if tier == "quick" and (i + lf + (lp == "end")) % 2:
+                    continue
+                add(f"two-files/{i}/link-in-{'ab'[lf]}-{lp}", FIXED[i][0], FIXED[i][1], split=k, link_file=lf, link_pos=lp)
     n = 400 if tier == "thorough" else 30
     for i in range(n):
         prog, kinds = make_program(rnd, rnd.randint(3, 8))
